@@ -153,7 +153,7 @@ pub proof fn lemma_fm_char(w: World, t: int, lim: int)
         lemma_fm_char(w, t + 1, lim);
     }
 }
-/// the `@trusted` contract of `find_bit_in_bucket` in the "least position" form the Kani harness asserts
+/// the contract of `find_bit_in_bucket` in the "least position" form (which the Kani harness asserts as well)
 pub proof fn lemma_fbb_char(s: Seq<u32>, t: int)
     requires 0 <= t,
     ensures
@@ -165,12 +165,141 @@ pub proof fn lemma_fbb_char(s: Seq<u32>, t: int)
 {
     if t < s.len() * 32 && !sbit(s, t) { lemma_fbb_char(s, t + 1); }
 }
+// ---- 2a. the item-by-item scan of `find_bit_in_bucket` (the loop that `(a..b).find_map(..)` is) ----
+pub proof fn lemma_fbi_char(num: u32, t: int)
+    requires 0 <= t,
+    ensures
+        match fbi(num, t) {
+            Some(p) => t <= p < 32 && (num & pos_mask(p)) != 0 && forall|j: int| t <= j < p ==> (num & #[trigger] pos_mask(j)) == 0,
+            None => forall|j: int| t <= j < 32 ==> (num & #[trigger] pos_mask(j)) == 0,
+        },
+    decreases 32 - t
+{
+    if t < 32 && (num & pos_mask(t)) == 0 { lemma_fbi_char(num, t + 1); }
+}
+pub proof fn lemma_fbb_unique(s: Seq<u32>, t: int, m: int)
+    requires 0 <= t <= m, sbit(s, m), forall|j: int| t <= j < m ==> !#[trigger] sbit(s, j),
+    ensures fbb(s, t) == Some(m),
+    decreases m - t
+{
+    if t < m { lemma_fbb_unique(s, t + 1, m); }
+}
+/// positions without a marker are skipped
+pub proof fn lemma_fbb_skip(s: Seq<u32>, a: int, b: int)
+    requires 0 <= a <= b, forall|j: int| a <= j < b ==> !#[trigger] sbit(s, j),
+    ensures fbb(s, a) == fbb(s, b),
+    decreases b - a
+{
+    if a < b {
+        lemma_fbb_skip(s, a + 1, b);
+        if a >= s.len() * 32 { assert(fbb(s, b).is_none()) by { lemma_fbb_char(s, b); if fbb(s, b).is_some() { assert(sbit(s, fbb(s, b).unwrap())); } } }
+    }
+}
+/// one step of the scan: searching item `i` from position `from` either finds the answer of the whole search from
+/// `i * 32 + from`, or the search continues at the first position of the next item
+pub proof fn lemma_fbb_item(s: Seq<u32>, i: int, from: int)
+    requires 0 <= i < s.len(), 0 <= from < 32,
+    ensures
+        //@@ C10:lemma.consec_bucket_scan_step
+        match fbi(s[i], from) {
+            Some(q) => from <= q < 32 && fbb(s, i * 32 + from) == Some(i * 32 + q),
+            None => fbb(s, i * 32 + from) == fbb(s, (i + 1) * 32),
+        },
+{
+    lemma_fbi_char(s[i], from);
+    match fbi(s[i], from) {
+        Some(q) => {
+            assert((i * 32 + q) / 32 == i && (i * 32 + q) % 32 == q);
+            assert(sbit(s, i * 32 + q));
+            assert forall|j: int| i * 32 + from <= j < i * 32 + q implies !#[trigger] sbit(s, j) by {
+                assert(j / 32 == i && j % 32 == j - i * 32);
+            }
+            lemma_fbb_unique(s, i * 32 + from, i * 32 + q);
+        }
+        None => {
+            assert forall|j: int| i * 32 + from <= j < (i + 1) * 32 implies !#[trigger] sbit(s, j) by {
+                assert(j / 32 == i && j % 32 == j - i * 32);
+            }
+            lemma_fbb_skip(s, i * 32 + from, (i + 1) * 32);
+        }
+    }
+}
 pub proof fn lemma_fm_unique(w: World, t: int, lim: int, m: int)
     requires 0 <= t <= m < lim, m <= u32::MAX, bit(w, m as u32), forall|j: int| t <= j < m ==> !#[trigger] bit(w, j as u32),
     ensures first_mark(w, t, lim) == Some(m),
     decreases m - t
 {
     if t < m { lemma_fm_unique(w, t + 1, lim, m); }
+}
+// ---- 2b. the bucket-by-bucket scan of `Consecutive::owner_of` (the loop that `(a..=b).filter_map(..).find_map(..)` is) ----
+/// ids without a marker are skipped
+pub proof fn lemma_fm_skip(w: World, a: int, b: int, lim: int)
+    requires 0 <= a <= b <= lim, forall|j: int| a <= j < b && j <= u32::MAX ==> !#[trigger] bit(w, j as u32),
+    ensures first_mark(w, a, lim) == first_mark(w, b, lim),
+    decreases b - a
+{
+    if a < b {
+        lemma_fm_skip(w, a + 1, b, lim);
+        if a > u32::MAX {
+            assert(first_mark(w, a + 1, lim).is_none());
+        } else {
+            assert(!bit(w, a as u32));
+        }
+    }
+}
+/// one step of the scan: searching bucket `bi` from position `from` (what `find_bit_in_bucket` returns, see its contract)
+/// either finds the answer of the whole search from id `bi * 3200 + from`, or the search continues at the first id of
+/// the next bucket; an absent bucket is skipped.  `buckets_le`: a bucket with more than 100 items would have positions
+/// that are ids of the NEXT bucket.
+pub proof fn lemma_fm_bucket(w: World, bi: u32, from: int, lim: int)
+    requires buckets_le(w), 0 <= from < 3200, (bi + 1) * 3200 <= lim,
+    ensures
+        //@@ C10:lemma.consec_owner_search_bucket_step
+        match bucket_of(w, bi) {
+            Some(s) => match fbb(s, from) {
+                Some(p) => from <= p < 3200 && (bi * 3200 + p <= u32::MAX ==> first_mark(w, bi * 3200 + from, lim) == Some(bi * 3200 + p)),
+                None => first_mark(w, bi * 3200 + from, lim) == first_mark(w, (bi + 1) * 3200, lim),
+            },
+            None => first_mark(w, bi * 3200 + from, lim) == first_mark(w, (bi + 1) * 3200, lim),
+        },
+{
+    let base = bi * 3200;
+    match bucket_of(w, bi) {
+        Some(s) => {
+            assert(s.len() <= 100);
+            lemma_fbb_char(s, from);
+            match fbb(s, from) {
+                Some(p) => {
+                    if base + p <= u32::MAX {
+                        let m = (base + p) as u32;
+                        assert(m / 3200 == bi && m % 3200 == p);
+                        assert(bit(w, m));
+                        assert forall|j: int| base + from <= j < base + p implies !#[trigger] bit(w, j as u32) by {
+                            let k = j as u32;
+                            assert(k / 3200 == bi && k % 3200 == j - base);
+                            assert(!sbit(s, j - base));
+                        }
+                        lemma_fm_unique(w, base + from, lim, base + p);
+                    }
+                }
+                None => {
+                    assert forall|j: int| base + from <= j < base + 3200 && j <= u32::MAX implies !#[trigger] bit(w, j as u32) by {
+                        let k = j as u32;
+                        assert(k / 3200 == bi && k % 3200 == j - base);
+                        assert(!sbit(s, j - base));
+                    }
+                    lemma_fm_skip(w, base + from, base + 3200, lim);
+                }
+            }
+        }
+        None => {
+            assert forall|j: int| base + from <= j < base + 3200 && j <= u32::MAX implies !#[trigger] bit(w, j as u32) by {
+                let k = j as u32;
+                assert(k / 3200 == bi);
+            }
+            lemma_fm_skip(w, base + from, base + 3200, lim);
+        }
+    }
 }
 pub proof fn lemma_fm_same(w: World, w2: World, t: int, lim: int)
     requires forall|k: u32| #[trigger] bit(w2, k) == bit(w, k),
